@@ -111,9 +111,9 @@ type Path struct {
 	Lits    []Lit
 	Outcome []*Term // returned values; nil for a panic
 	Panic   *Term
-	Events  []string          // ordered uninterpreted calls with their argument terms
-	Final   map[string]*Term  // final contents of written memory reachable from parameters / results
-	Note    string            // non-empty: the walker gave up (unrecognised construct)
+	Events  []string         // ordered uninterpreted calls with their argument terms
+	Final   map[string]*Term // final contents of written memory reachable from parameters / results
+	Note    string           // non-empty: the walker gave up (unrecognised construct)
 }
 
 // Valuation of a path as a map.
